@@ -21,7 +21,7 @@ use jomini::binary::FailedResolveStrategy;
 use serde::de::DeserializeSeed;
 
 pub fn shared_cfg() -> Cfg {
-    Cfg { strat: FailedResolveStrategy::Error, lines: false, entries: docgen::KEY_POOL.iter().map(|k| (docgen::key_id(k.as_bytes()).unwrap(), k.to_string())).collect() }
+    Cfg { strat: FailedResolveStrategy::Error, lines: 0, entries: docgen::KEY_POOL.iter().map(|k| (docgen::key_id(k.as_bytes()).unwrap(), k.to_string())).collect() }
 }
 
 // ---------------------------------------------------------------------------------------
@@ -280,7 +280,29 @@ mod real {
         pub x: u64,
         pub army: bool,
         pub list: Vec<jomini::common::Date>,
+        pub unit: Option<jomini::common::DateHour>,
     }
+    /// tuple, tuple-struct and newtype fields, each FOLLOWED by further fields
+    #[derive(Deserialize, Debug, PartialEq)]
+    pub struct P(pub i32, pub i32);
+    #[derive(Deserialize, Debug, PartialEq)]
+    pub struct N(pub i32);
+    #[derive(Deserialize, Debug, PartialEq)]
+    pub struct Q(pub String, pub String, pub String);
+    #[derive(Deserialize, Debug, PartialEq)]
+    pub struct Tup {
+        pub a: (i32, i32),
+        pub name: String,
+        pub b: P,
+        pub id: u32,
+        pub core: N,
+        pub flags: Q,
+        pub x: i32,
+        pub unit: Option<Inner>,
+        pub y: Option<i32>,
+    }
+    #[derive(Deserialize, Debug, PartialEq)]
+    pub struct Inner { pub a: P, pub b: i32, pub list: (i32, i32, i32), pub x: i32 }
     #[derive(Deserialize, Debug, PartialEq)]
     pub struct Shared {
         pub date: jomini::common::Date,
@@ -292,6 +314,7 @@ mod real {
         pub x: u64,
         pub army: bool,
         pub list: Vec<jomini::common::Date>,
+        pub unit: Option<jomini::common::DateHour>,
     }
 }
 
@@ -311,11 +334,27 @@ fn real_five<T: for<'de> serde::Deserialize<'de> + std::fmt::Debug>(text: &[u8],
 
 fn gen_real_pair(rng: &mut Rng) -> (Vec<u8>, Vec<u8>) {
     // logical content
-    let date = |rng: &mut Rng| (rng.range(1, 9999) as i16, rng.range(1, 12) as u8, rng.range(1, 28) as u8);
+    // years over the whole range of the binary format (>= -5000), its edges, the small positive years and
+    // the neighbourhood of -100 (where the "plausible date" heuristic of from_binary_heuristic gives up)
+    let date = |rng: &mut Rng| {
+        let y: i16 = match rng.below(6) {
+            0 => *rng.pick(&[-5000i16, -4999, -2500, -1000, -101, -100, -99, -1, 1, 2, 99, 100, 200, 9999]),
+            1 => -(rng.range(1, 5000) as i16),
+            2 => rng.range(1, 200) as i16,
+            _ => rng.range(1, 9999) as i16,
+        };
+        (y, rng.range(1, 12) as u8, rng.range(1, 28) as u8)
+    };
     let mut fields: Vec<(&str, Node, BNode)> = vec![];
     let dnode = |(y, m, d): (i16, u8, u8)| (Node::Leaf(Leaf::Date(y, m, d, None)), BNode::Leaf(BLeaf::I32(docgen::date_to_binary(y, m, d, None))));
     let d0 = dnode(date(rng)); fields.push(("date", d0.0, d0.1));
     if rng.chance(1, 2) { let d1 = dnode(date(rng)); fields.push(("core", d1.0, d1.1)); }
+    if rng.chance(2, 3) {
+        // a DateHour field: text `y.m.d.h` (hours 1..24), binary the same I32 scale with the hour component
+        let (y, m, d) = date(rng);
+        let h = rng.range(1, 24) as u8;
+        fields.push(("unit", Node::Leaf(Leaf::Date(y, m, d, Some(h))), BNode::Leaf(BLeaf::I32(docgen::date_to_binary(y, m, d, Some(h))))));
+    }
     let (r, g, b) = (rng.below(256) as u32, rng.below(256) as u32, rng.below(256) as u32);
     fields.push(("color", Node::Rgb(r, g, b, None), BNode::Rgb(r, g, b, None)));
     let nm: Vec<u8> = (0..rng.below(8)).map(|_| *rng.pick(b"abcxyz \xe9")).collect();
@@ -371,6 +410,12 @@ pub fn exec(w: &[&str], obs: &mut Obs) -> Option<String> {
                     Cmp::Different => { obs.violation("c10-renderings-disagree", &case(), &format!("path0 (text slice) {} vs path{} {}", vals[0], i, v)); worst = Cmp::Different; break; }
                 }
             }
+            // every text-lines resolver (\n, \r\n, trailing blanks, mixed / unprefixed ids) must resolve like the HashMap
+            for lines in 1..5u8 {
+                let c2 = Cfg { lines, ..shared_cfg() };
+                let v = c04::run_slice(&c2, &RootTy::Plain(ty.clone()), &bin);
+                if v != vals[3] { obs.violation("c10-resolver-lines-disagree", &case(), &format!("resolver kind {}: {} vs HashMap {}", lines, v, vals[3])); break; }
+            }
             obs.count(match worst { Cmp::Equal => "pair:equal", Cmp::FloatNear => "pair:float-within-1ulp-f32", Cmp::Different => "pair:different" });
             let k = if vals[0].starts_with("err:missing") { "err:missing" } else if vals[0].starts_with("err:duplicate") { "err:duplicate" } else if vals[0].starts_with("err") { vals[0].as_str() } else { "ok" };
             obs.count(&format!("pair-result:{}", k));
@@ -398,8 +443,47 @@ pub fn exec(w: &[&str], obs: &mut Obs) -> Option<String> {
             obs.count(if v[0].starts_with("err") { "real:err" } else { "real:ok" });
             Some(format!("{}|{}", v[0], n[0]))
         }
+        ["x-c10-tup", th, bh] => {
+            let (text, bin) = (unhex(th)?, unhex(bh)?);
+            let v = real_five::<real::Tup>(&text, &bin);
+            for (i, x) in v.iter().enumerate().skip(1) {
+                if *x != v[0] { obs.violation("c10-tuple-fields-disagree", &case(), &format!("text slice {} vs path{} {}", v[0], i, x)); break; }
+            }
+            obs.count(if v[0].starts_with("err") { "tup:err" } else { "tup:ok" });
+            Some(v[0].clone())
+        }
         _ => None,
     }
+}
+
+fn gen_tup_pair(rng: &mut Rng) -> (Vec<u8>, Vec<u8>) {
+    let int = |rng: &mut Rng| { let v = rng.next() as i32 >> rng.below(31); (Node::Leaf(Leaf::Int(v as i64)), BNode::Leaf(BLeaf::I32(v))) };
+    let ints = |rng: &mut Rng, n: usize| { let v: Vec<(Node, BNode)> = (0..n).map(|_| int(rng)).collect(); (Node::Arr(v.iter().map(|x| x.0.clone()).collect()), BNode::Arr(v.iter().map(|x| x.1.clone()).collect())) };
+    let st = |rng: &mut Rng| { let n = 1 + rng.below(5); let s: Vec<u8> = (0..n).map(|_| b'a' + rng.below(26) as u8).collect(); (Node::Leaf(Leaf::Unq(s.clone())), BNode::Leaf(BLeaf::Unquoted(s))) };
+    let mut fields: Vec<(&str, Node, BNode)> = vec![];
+    let a = ints(rng, 2); fields.push(("a", a.0, a.1));
+    let n = st(rng); fields.push(("name", n.0, n.1));
+    let b = ints(rng, 2); fields.push(("b", b.0, b.1));
+    let id = rng.next() as u32 >> rng.below(32); fields.push(("id", Node::Leaf(Leaf::Uint(id as u64)), BNode::Leaf(BLeaf::U32(id))));
+    let c = int(rng); fields.push(("core", c.0, c.1));
+    let q: Vec<(Node, BNode)> = (0..3).map(|_| st(rng)).collect();
+    fields.push(("flags", Node::Arr(q.iter().map(|x| x.0.clone()).collect()), BNode::Arr(q.iter().map(|x| x.1.clone()).collect())));
+    let x = int(rng); fields.push(("x", x.0, x.1));
+    if rng.chance(1, 2) {
+        let (ia, ib, il, ix) = (ints(rng, 2), int(rng), ints(rng, 3), int(rng));
+        let mut inner = vec![("a", ia.0, ia.1), ("b", ib.0, ib.1), ("list", il.0, il.1), ("x", ix.0, ix.1)];
+        for i in (1..inner.len()).rev() { let j = rng.below(i + 1); inner.swap(i, j); }
+        let key = |k: &str, rng: &mut Rng| if rng.chance(2, 3) { BLeaf::Id(docgen::key_id(k.as_bytes()).unwrap()) } else { BLeaf::Unquoted(k.as_bytes().to_vec()) };
+        fields.push(("unit",
+            Node::Obj(inner.iter().map(|(k, n, _)| Field { key: Leaf::Unq(k.as_bytes().to_vec()), op: Op::Eq, val: n.clone(), ghosts: 0, implicit_eq: false }).collect()),
+            BNode::Obj(inner.iter().map(|(k, _, b)| BField { ghosts: 0, key: key(k, rng), val: b.clone() }).collect())));
+    }
+    if rng.chance(1, 2) { let y = int(rng); fields.push(("y", y.0, y.1)); }
+    for i in (1..fields.len()).rev() { let j = rng.below(i + 1); fields.swap(i, j); }
+    let doc = Doc { fields: fields.iter().map(|(k, n, _)| Field { key: Leaf::Unq(k.as_bytes().to_vec()), op: Op::Eq, val: n.clone(), ghosts: 0, implicit_eq: false }).collect() };
+    let bd = BDoc { fields: fields.iter().map(|(k, _, b)| BField { ghosts: 0, key: if rng.chance(2, 3) { BLeaf::Id(docgen::key_id(k.as_bytes()).unwrap()) } else { BLeaf::Unquoted(k.as_bytes().to_vec()) }, val: b.clone() }).collect() };
+    let text = docgen::render_layout(rng, &LayoutCfg::reader_safe(), &docgen::lexemes(&doc));
+    (text, c04::render_bdoc(&bd))
 }
 
 pub fn gen(g: &mut Gen) {
@@ -419,6 +503,12 @@ pub fn gen(g: &mut Gen) {
         let (t, b) = gen_real_pair(&mut g.rng);
         g.emit(format!("x-c10-real {} {}", hex(&t), hex(&b)));
         g.count("real-pair");
+    }
+    let k = g.budget(800, 15_000);
+    for _ in 0..k {
+        let (t, b) = gen_tup_pair(&mut g.rng);
+        g.emit(format!("x-c10-tup {} {}", hex(&t), hex(&b)));
+        g.count("tuple-pair");
     }
 }
 
